@@ -26,6 +26,7 @@ RULE = ("Histories of operations on a pool of Atoms objects, each mirrored on a 
         "sequences up to depth 2 (quick) / 3 (thorough) over a fixed alphabet of 14 symbolic steps on two start "
         "structures. Non-trivial = history of >= 2 steps with a mutating step applied to the result of another; "
         "distinct by hash of the recorded history.")
+RULE += (" Since rounds 9-10: Subsets are taken by positions counted from either end, passed as list, tuple, integer array or bare integer; the resolved view also requires .elements to equal the type table looked up through the per-atom types; cells in whole Angstroms are handed over as ints / integer arrays and term tables as column-major arrays now and then.")
 ASSUMPTIONS = ["identity of atoms is carried by unique charge tags; after replicate the harness re-tags the image atoms "
                "(identified by position) so that identities stay unique",
                "subset (__getitem__) is documented to drop terms; the model drops them and per-atom extra columns too",
